@@ -397,6 +397,76 @@ def step_pool():
     return pool
 
 
+def value_laws():
+    """-> (comparisons, problems).  Constants holding every kind of Python value a program can put into a tree (bound parameters, data frame
+    cells): special floats, decimals, booleans next to 0 / 1, dates, empty and number-like strings.  For the bare constant, for trees that hold
+    it (select list, comparison, tuple, INSERT row, bound placeholder) and for steps / plans holding those trees: x == x, x == copy(x),
+    x == deepcopy(x), copies print alike, == is symmetric over all pairs, objects that compare equal print the same SQL."""
+    import copy as _cp, decimal, datetime as dt
+    from mindsdb_sql import parse_sql
+    from mindsdb_sql.parser.ast import Constant, Select, Identifier, BinaryOperation, Tuple, Insert
+    from mindsdb_sql.planner import steps as S
+    from mindsdb_sql.planner.step_result import Result
+    from mindsdb_sql.planner.query_plan import QueryPlan
+    from mindsdb_sql.planner.utils import query_traversal
+    values = [float('nan'), float('inf'), float('-inf'), -0.0, 0.0, 1.5, 1e300, 1, 0, True, False, 2 ** 70, decimal.Decimal('NaN'), decimal.Decimal('1.50'), decimal.Decimal('1.5'),
+              decimal.Decimal('Infinity'), '1', '', '1.5', 'nan', None, dt.date(2020, 1, 2), dt.datetime(2020, 1, 2, 3, 4, 5), dt.timedelta(days=1), 1 + 0j]
+
+    def bound(v):
+        q = parse_sql('select ? as x from t where a = ?', 'mindsdb')
+        from mindsdb_sql.planner.utils import fill_query_params
+        return fill_query_params(q, [v, v])
+    forms = [('constant', lambda v: Constant(v)),
+             ('select-list', lambda v: Select(targets=[Constant(v)], from_table=Identifier('t'))),
+             ('comparison', lambda v: BinaryOperation('=', args=[Identifier('a'), Constant(v)])),
+             ('tuple', lambda v: Tuple([Constant(v), Constant(1)])),
+             ('insert-row', lambda v: Insert(table=Identifier('t'), columns=[Identifier('a')], values=[[Constant(v)]])),
+             ('bound-placeholder', bound),
+             ('project-step', lambda v: S.ProjectStep(dataframe=Result(0), columns=[Constant(v)])),
+             ('fetch-step', lambda v: S.FetchDataframeStep(integration='int1', query=Select(targets=[Constant(v)], from_table=Identifier('t')))),
+             ('plan', lambda v: QueryPlan(steps=[S.ProjectStep(dataframe=Result(0), columns=[Constant(v)])]))]
+    problems, n = [], 0
+
+    def show(x):
+        try:
+            return x.to_string() if hasattr(x, 'to_string') else repr(getattr(x, 'steps', x))
+        except Exception as e:  # noqa
+            return None
+    for fname, mk in forms:
+        objs = []
+        for v in values:
+            try:
+                x = mk(v)
+            except Exception:  # noqa
+                continue
+            objs.append((v, x))
+            n += 1
+            for what, y in (('itself', x), ('its copy()', x.copy() if hasattr(x, 'copy') and not isinstance(x, QueryPlan) else _cp.copy(x)), ('its deepcopy', _cp.deepcopy(x)),
+                            ('a second object built the same way', mk(v))):
+                try:
+                    e1, e2 = (x == y), (y == x)
+                except Exception as e:  # noqa
+                    problems.append('%s holding %r: == with %s raises %s' % (fname, v, what, type(e).__name__))
+                    continue
+                if not e1 or not e2:
+                    problems.append('%s holding %r is not equal to %s' % (fname, v, what))
+                elif show(x) is not None and show(x) != show(y):
+                    problems.append('%s holding %r prints differently from %s' % (fname, v, what))
+        for i, (va, a) in enumerate(objs):
+            for vb, b in objs[i + 1:]:
+                n += 1
+                try:
+                    e1, e2 = (a == b), (b == a)
+                except Exception as e:  # noqa
+                    problems.append('%s holding %r / %r: == raises %s' % (fname, va, vb, type(e).__name__))
+                    continue
+                if bool(e1) != bool(e2):
+                    problems.append('%s holding %r / %r: a == b is %r but b == a is %r' % (fname, va, vb, e1, e2))
+                elif e1 and show(a) is not None and show(b) is not None and show(a) != show(b):
+                    problems.append('%s holding %r / %r compare equal but print differently: %r vs %r' % (fname, va, vb, show(a), show(b)))
+    return n, problems, len(values), [f for f, _ in forms]
+
+
 def step_cast_laws():
     """-> (comparisons, problems).  For every real step s and every step class D that is a sub- or superclass of type(s): the twin of s
     is an instance of D carrying s's values in all attributes the two classes share.  Laws: == is symmetric; objects that compare equal
